@@ -34,6 +34,9 @@ func toChannelSyncMsg(protoEnvMsg *Envelope_ChannelSyncMsg) (msg *client.Channel
 
 	msg.CurrentTX.Sigs = make([][]byte, len(protoMsg.GetCurrentTx().GetSigs()))
 	for i := range protoMsg.GetCurrentTx().GetSigs() {
+		if len(protoMsg.GetCurrentTx().GetSigs()[i]) == 0 {
+			continue // An absent signature is transported as empty bytes and stays nil.
+		}
 		msg.CurrentTX.Sigs[i] = make([]byte, len(protoMsg.GetCurrentTx().GetSigs()[i]))
 		copy(msg.CurrentTX.Sigs[i], protoMsg.GetCurrentTx().GetSigs()[i])
 	}
